@@ -446,3 +446,16 @@ impl From<&cooklang::Timer<OriginalValue>> for Timer {
         }
     }
 }
+
+/// Verification hooks, only compiled with `--cfg cooklang_verif`: build and
+/// read the crate-private fields of [`Amount`]. Nothing here changes behaviour.
+#[cfg(cooklang_verif)]
+impl Amount {
+    pub fn verif_new(quantity: Value, units: Option<String>) -> Self {
+        Amount { quantity, units }
+    }
+
+    pub fn verif_parts(&self) -> (&Value, &Option<String>) {
+        (&self.quantity, &self.units)
+    }
+}
